@@ -153,7 +153,14 @@ func (root *Root) resolve(
 	switch tt := t.(type) {
 	case *List:
 		result, ea = root.resolveList(obj, vars, field, tt, depth-1)
-	case *Object, *Schema, *Interface, *uuSchema:
+	case *Object, *Schema, *uuSchema:
+		result, ea = root.resolveFieldSels(obj, vars, field, t, depth-1)
+	case *Interface:
+		// Resolve as the object type the Go type of obj is bound to if there
+		// is one so __typename and fragments see the concrete type.
+		if ot := root.implementer(obj, tt); ot != nil {
+			t = ot
+		}
 		result, ea = root.resolveFieldSels(obj, vars, field, t, depth-1)
 	case *NonNull:
 		result, ea = root.resolve(obj, vars, field, tt.Base, depth)
@@ -198,6 +205,25 @@ func (root *Root) resolve(
 		}
 	}
 	return
+}
+
+// implementer returns the object type that implements the interface and is
+// bound to the Go type of obj or nil if there is none.
+func (root *Root) implementer(obj interface{}, it *Interface) *Object {
+	objType := reflect.TypeOf(obj)
+	for _, t := range root.types.list {
+		if ot, _ := t.(*Object); ot != nil {
+			for _, i := range ot.Interfaces {
+				if i == Type(it) {
+					if meta, _ := ot.metaCheck(objType); meta == objType {
+						return ot
+					}
+					break
+				}
+			}
+		}
+	}
+	return nil
 }
 
 func (root *Root) resolveFieldSels(
